@@ -30,7 +30,8 @@ RULE = ("a case = (limit, limit_per_host, key of each of N tasks, label sequence
         "callback) / attempt ok|fail / cancel / connect-timeout / release to pool|close / idle connection lost / connector "
         "close / shuffle order. Generator classes: guided walk over enabled labels, saturate (limit 1, one key, cancels of "
         "woken waiters), per-host (limit_per_host 1, two keys), reuse (pooling, fast path, lost idle connections), close-at-"
-        "any-step, traced (suspending on_connection_reuseconn/queued_start/queued_end/create_start/create_end callbacks "
+        "any-step, close-in-hook (close() while a task is suspended in each of the five trace hooks, before/after the callback "
+        "returns, then everything runs to completion; the run fails as machinery error if one hook is never hit), traced (suspending on_connection_reuseconn/queued_start/queued_end/create_start/create_end callbacks "
         "resolved by label, any subset), noise (arbitrary labels incl. disabled ones), scripted scenarios; thorough adds the exhaustive exploration "
         "of every reachable state and transition for N<=3 tasks (all placements of cancel/fail/close). Plus 810 ClientSession-level "
         "scenarios (limit kind x request body kind x expect100 x scripted peer x how the caller ends the exchange) judged by "
@@ -94,8 +95,17 @@ class Judge:
             if p.conn._closed:
                 how = "on-closed-connector"
             self.found["limit"] = (idx, how, f"in use {total} (per host {per}) with limit={self.limit} limit_per_host={self.lph}")
+        # (0) connect() may only end with a Connection, CancelledError, TimeoutError, OSError of the attempt,
+        #     or ClientConnectionError("Connector is closed") — never with an internal error
+        for t, st in enumerate(states):
+            if st.startswith("?(") and st != "?(running)":
+                self.found.setdefault("raised", (idx, st[2:-1] + ("-after-close" if p.conn._closed else ""),
+                                                 f"connect() of task {t} raised {st[2:-1]}"))
         closed = p.conn._closed
         if lab == "C" and self.prev is not None and not self.closed_seen:
+            for st in self.prev:
+                if "~" in st:
+                    self.flags.add("close-while-suspended-in:" + st.split("~")[1][0])
             # tasks parked on a pending future when close() was called: close must fail them
             self.waiting_at_close = {t for t, st in enumerate(self.prev) if st == "w"}
         if closed:
@@ -133,15 +143,20 @@ class Judge:
         # (4) close closes every connection created
         # (a connection whose on_connection_create_end callback has not returned yet is still in connect()'s hands)
         pending_new = {p.created_by[t] for t, (letter, _) in p.trace_wait.items() if letter == "e"}
+        if closed:
+            self.seen_pending_while_closed = getattr(self, "seen_pending_while_closed", set()) | pending_new
         if closed and any(not tr.closing for tr in p.transports if tr.cid not in pending_new):
+            left = {tr.cid for tr in p.transports if not tr.closing and tr.cid not in pending_new}
             how = ("orphaned-by-cancellation-in-trace-callback" if "cancelled-in-trace-callback" in self.flags
+                   else "new-connection-not-closed-after-create-end-callback"
+                   if left & getattr(self, "seen_pending_while_closed", set())
                    else "transport-left-open")
             self.found.setdefault("close-open", (idx, how, "a transport is open after connector close"))
         self.prev = states
 
 
 SIG = {"limit": "C07/limit-exceeded/", "stuck": "C07/lost-wakeup/", "parked-closed": "C07/close/",
-       "leak": "C07/leak/", "close-open": "C07/close/", "close-waiter": "C07/close/"}
+       "leak": "C07/leak/", "close-open": "C07/close/", "close-waiter": "C07/close/", "raised": "C07/connect-raised/"}
 
 
 def run_case(case, want_proj=True, observe=None):
@@ -206,11 +221,17 @@ PROFILES = {
     "close": {"C": 0.5},
     "traced": {"s": 5.0, "t": 2.0, "c": 1.2, "r": 2.5},
     "traced-close": {"C": 0.4, "c": 1.2},
+    # close() is called while a task is suspended in one chosen trace hook (see walk)
+    "close-in-hook": {"s": 5.0, "t": 0.6, "r": 3.0, "x": 1.5, "c": 0.3, "m": 0.1, "C": 0.001},
 }
+HOOK_BITS = {"r": 0, "q": 1, "Q": 2, "s": 3, "e": 4}
 
 
 def gen_params(rng, profile):
     """-> (limit, limit_per_host, keys, mask of suspending trace hooks)"""
+    if profile == "close-in-hook":
+        n = rng.randint(2, 4)
+        return 1, rng.choice([0, 0, 1]), [0] * n if rng.random() < 0.8 else [rng.randrange(2) for _ in range(n)], 0
     if profile.startswith("traced"):
         n = rng.randint(2, 5); h = rng.randint(1, 2)
         mask = rng.choice([31, 31, 8, 1, 2 | 4, 16, rng.randrange(1, 32)])
@@ -233,9 +254,15 @@ def _gen_params(rng, profile):
     return rng.choice([0, 1, 1, 2, 2, 3]), rng.choice([0, 0, 1, 1, 2, 3]), [rng.randrange(h) for _ in range(n)]
 
 
-def walk(rng, profile, judge_cb=None):
-    """online guided walk: returns (case, projections, judge)"""
+def walk(rng, profile, judge_cb=None, hook=None):
+    """online guided walk: returns (case, projections, judge).
+    With `hook` (profile close-in-hook): that trace hook (and a random subset of the others) suspends; as soon as some
+    task is suspended in it the connector is closed — before or after the callback returns —, then every callback is
+    allowed to return and every task to run, so that the suspended connect() finishes on the closed connector."""
     limit, lph, keys, mask = gen_params(rng, profile)
+    if hook is not None:
+        mask = (1 << HOOK_BITS[hook]) | (rng.randrange(32) if rng.random() < 0.4 else 0)
+    phase = 0
     nk = max(keys) + 1
     w = dict(WEIGHTS); w.update(PROFILES[profile])
     p = Pool(limit, lph, keys, mask)
@@ -243,7 +270,7 @@ def walk(rng, profile, judge_cb=None):
     labels, out = [], []
     try:
         first = "p" + ".".join(map(str, rng.sample(range(nk), nk)))
-        for i in range(rng.randint(4, 45)):
+        for i in range(rng.randint(4, 45) if hook is None else 60):
             if i == 0:
                 lab = first
             elif rng.random() < w.get("p", 0.3) / 10:
@@ -252,6 +279,19 @@ def walk(rng, profile, judge_cb=None):
                 en = p.enabled()
                 if not en:
                     break
+                if hook is not None:
+                    sus = [t for t in range(len(keys)) if ("~" + hook) in p.task_state(t)]
+                    if phase == 0 and sus:
+                        phase = 1
+                        pre = rng.choice(["", "", "t", "tc", "c"])   # callback returns / task cancelled just before close
+                        forced = [x + str(sus[0]) for x in pre] + ["C"]
+                    if phase == 1:
+                        lab = forced.pop(0)
+                        if not forced:
+                            phase = 2
+                            w = dict(w); w.update({"t": 6.0, "k": 6.0, "s": 1.0, "c": 0.4})
+                        p.do(lab); labels.append(lab); out.append(p.project()); j(p, lab, i)
+                        continue
                 if rng.random() < 0.04:   # a label that is (probably) disabled: must be a no-op
                     lab = rng.choice("socmrxlt") + str(rng.randrange(len(keys)))
                 else:
@@ -300,6 +340,14 @@ SCRIPTED = [
     # three requests, one slot, on_connection_create_start suspends: only one may pass the capacity check
     {"limit": 1, "lph": 0, "mask": 8, "keys": [0, 0, 0], "labels": L("p0 s0 s1 s2 k k k t0 t1 t2 k k k o0 k x0 k k")},
     {"limit": 0, "lph": 1, "mask": 31, "keys": [0, 0, 0], "labels": L("p0 s0 k t0 k o0 k t0 k s1 s2 k k t1 t2 k k r0 k t1 k t1 k k t2 k")},
+    # close() while a task is suspended in each trace hook; the callback then returns and connect() finishes
+    {"limit": 1, "lph": 0, "mask": 16, "keys": [0, 0], "labels": L("p0 s0 k o0 k C t0 k")},          # create_end
+    {"limit": 1, "lph": 1, "mask": 16, "keys": [0, 0], "labels": L("p0 s0 k o0 k t0 C k s1 k")},     # create_end, returned first
+    {"limit": 1, "lph": 0, "mask": 8, "keys": [0, 0], "labels": L("p0 s0 k C t0 k o0 k")},           # create_start
+    {"limit": 1, "lph": 0, "mask": 1, "keys": [0, 0], "labels": L("p0 s0 k o0 k r0 s1 k C t1 k x1")},  # reuseconn
+    {"limit": 1, "lph": 0, "mask": 2, "keys": [0, 0], "labels": L("p0 s0 k o0 k s1 k C t1 k k x0")},   # queued_start
+    {"limit": 1, "lph": 0, "mask": 4, "keys": [0, 0], "labels": L("p0 s0 k o0 k s1 k x0 k C t1 k o1 k")},  # queued_end
+    {"limit": 1, "lph": 0, "mask": 16, "keys": [0, 0], "labels": L("p0 s0 k o0 k C c0 k")},          # create_end, cancelled after close
     # woken while still inside on_connection_queued_start; cancelled inside on_connection_queued_end
     {"limit": 1, "lph": 0, "mask": 6, "keys": [0, 0, 0], "labels": L("p0 s0 k o0 k s1 k s2 k t2 k x0 t1 k c1 k k t2 k")},
 ]
@@ -390,11 +438,16 @@ def check(ctx):
         cases.append((c, out, j, "scripted"))
     plan = [("guided", 800), ("saturate", 600), ("perhost", 600), ("reuse", 500), ("close", 400), ("traced", 1100),
             ("traced-close", 400)]
+    hook_plan = [(h, 120) for h in "rqQse"]
     mult = 1 if ctx.quick else 12
     for prof, n in plan:
         for _ in range(n * mult):
             c, out, j = walk(rng, prof)
             cases.append((c, out, j, prof))
+    for h, n in hook_plan:
+        for _ in range(n * mult):
+            c, out, j = walk(rng, "close-in-hook", hook=h)
+            cases.append((c, out, j, "close-in-hook:" + h))
     for _ in range(500 * mult):
         c = noise(rng)
         out, j = run_case(c)
@@ -421,6 +474,10 @@ def check(ctx):
             report(ctx, c, j, budget)
         if outs is not None:
             ctx.compare(c, "|".join(out), outs[i], "BaseConnector vs Aio.C07.step (state projection after every label)")
+    missing = [h for h in "rqQse" if not ctx.hits.get("event:close-while-suspended-in:" + h)]
+    if missing:
+        from .common.guard import MachineryError
+        raise MachineryError(f"generator blind spot: close() was never generated while a task was suspended in trace hook(s) {missing}")
 
     check_sessions(ctx)
 
